@@ -27,3 +27,18 @@ contract(OS, props=['C10', 'C27', 'C20'],
     canary='result == 0',
     note='body: bounded stand-in (<= 3 streams); callers use this contract modularly')
 modular(OS)
+
+
+for _n, _r in (('open_outbound_streams', 'own_parity(self)'), ('open_inbound_streams', '1 - own_parity(self)')):
+    contract(CONN + '.' + _n, props=['C10', 'C29', 'C27'],
+        args={}, setup=conn_setup, requires=['GI(self)'],
+        ensures=[('counts-the-open-streams-of-that-direction', 'result == old(count_open(self.streams, %s))' % _r, ['C10']),
+                 ('closed-streams-leave-the-live-table', 'all(self.streams[k].state_machine.state != StreamState.CLOSED for k in self.streams)', ['C27', 'C10']),
+                 ('GI', 'GI(self)')],
+        raises=[], unchanged=['self.highest_outbound_stream_id', 'self.highest_inbound_stream_id', 'self._data_to_send'],
+        canary='result == 7')
+
+contract(CONN + '.inbound_flow_control_window', props=['C04', 'C29'],
+    args={}, setup=conn_setup, requires=['GI(self)'],
+    ensures=[('is-the-connection-window', 'result == self._inbound_flow_control_window_manager.current_window_size', ['C04'])],
+    raises=[], unchanged=['self._data_to_send'], canary='result == 7')
